@@ -1,5 +1,6 @@
 (* C12 -- a crop is deleted only after its data is safely delivered. *)
 From XV Require Import Prelude Crop Stages GenStages BridgeStages GenReap BridgeReap.
+From XV Require Import Names Harvest HarvestFlow GenNames GenHarvest BridgeHarvest HarvestFlowProofs.
 Open Scope Z_scope.
 
 Definition all_kinds := [FNone; FRunner; FHarvester; FSampler].
@@ -70,6 +71,25 @@ Proof.
   all: try (exists [PFallible 7; PFallible 1; PFallible 2; PFallible 3; PFallible 4; PFallible 5]; eexists; split; [vm_compute; reflexivity|reflexivity]).
 Qed.
 
+(* the merge-and-save step (PFallible 6) really is fallible in the sense the programs need: when the
+   harvester's / sampler's file write fails, add_ds / add_df raise (control flow regenerated from
+   save_full_ds / save_full_df), so the deletion that follows is not reached *)
+Theorem C12_save_error_raises :
+  (forall st name e s new pol tmp, snd (hadd_wfail st name e gen_add_flow gen_save_flow s new pol tmp) = true)
+  /\ sf_reraise gen_ssave_flow = RrAlways.
+Proof.
+  split.
+  - intros. rewrite bridge_add_flow, bridge_save_flow. apply wfail_raises.
+  - rewrite bridge_ssave_flow. reflexivity.
+Qed.
+
+(* sensitivity: an except branch that re-raises only once the temporary file exists swallows the error
+   of a write that fails earlier (e.g. the directory is missing) *)
+Lemma C12_reraise_if_tmp_exists_refuted :
+  snd (hadd_wfail model_sites "d/data" Eh5netcdf model_add_flow (mk_save_flow MemAfterWrite RrIfTmpExists true)
+                  (mk_hst None []) [([100; 1; 1], 5)] PolNone false) = false.
+Proof. vm_compute. reflexivity. Qed.
+
 (* the clean-up rule itself, regenerated from calc_clean_up_default_res *)
 Theorem C12_code_tie :
   (forall e, gen_prog e = model_prog e) /\ (forall k, gen_dispatch k = model_dispatch k)
@@ -97,4 +117,5 @@ Print Assumptions C12_delete_is_last.
 Print Assumptions C12_failure_keeps_crop.
 Print Assumptions C12_success_deletes_iff.
 Print Assumptions C12_sync_before_delete.
+Print Assumptions C12_save_error_raises.
 Print Assumptions C12_code_tie.
